@@ -21,10 +21,14 @@ def run(ctx):
     gram.g14_order(ctx, g, P)
     gram.g15_kvp_args(ctx, g, P)
     gram.g9_kvp_value(ctx, g, P)
+    gram.g16_strings_atomic(ctx, g, P)
     gram.scan_alignment(ctx, g, P)
     finder.rule_macro_filter(ctx, facts, "C10-R1")
     finder.rule_filter_before_entry(ctx, facts, "C10-R1")
     finder.rule_parse_complete(ctx, facts, "C10-R1")
+    finder.rule_statement_local_state(ctx, facts, "C10-R1")
+    from .confimm import rule_config_as_loaded
+    rule_config_as_loaded(ctx, facts, "C10-R1")
     rule_anchor_provenance(ctx, facts, g, "C10-R2")
     from .c05 import rule_same_text
     rule_same_text(ctx, facts, "C10-R2")
